@@ -28,6 +28,14 @@ Require Import Grits.Base Grits.ModeDefs Grits.Modes Grits.STypes Grits.Forms Gr
                Grits.Runtime.
 
 Definition binder (x : name) : Prop := chan x = None /\ ident x <> "".
+(* the binder that re-binds the PROVIDER (continuation of a receive on self, payload of a branch of a
+   case on self, name of a shift on self): it may also be the keyword `self` itself (identifier "") —
+   `<x, self> <- recv self; k` — the substitution it triggers then maps the self names of k to self names
+   (which is why the identifier "" stays in the set rs of the continuation) *)
+Definition pbinder (x : name) : Prop := chan x = None.
+Lemma binder_pbinder x : binder x -> pbinder x.
+Proof. intros [H _]. exact H. Qed.
+Global Hint Resolve binder_pbinder : core.
 
 Section RtTyping.
 Variable D : tenv.
@@ -115,8 +123,8 @@ Inductive typed (Δ : gmap cid sty) : gmap string sty -> option string -> gset s
 (* ⊸R : <pay, cont> <- recv self; k   (cont names the provider in k) *)
 | T_RecvP Γ sh rs s pay cont from k A B m :
     prov_name sh rs from -> whd s (TLolli A B m) ->
-    binder pay -> binder cont -> ident pay <> ident cont ->
-    typed Δ (<[ident pay := A]> (delete (ident cont) Γ)) (Some (ident cont)) (rs ∖ {[ident pay]} ∖ {[ident cont]}) B k ->
+    binder pay -> pbinder cont -> ident pay <> ident cont ->
+    typed Δ (<[ident pay := A]> (delete (ident cont) Γ)) (Some (ident cont)) (rs ∖ {[ident pay]} ∖ ({[ident cont]} ∖ {[""]})) B k ->
     typed Δ Γ sh rs s (FRecv pay cont from k)
 (* ⊗L : <pay, cont> <- recv from; k *)
 | T_RecvC Γ sh rs s pay cont from k T A B m :
@@ -189,8 +197,8 @@ Inductive typed (Δ : gmap cid sty) : gmap string sty -> option string -> gset s
     typed Δ Γ sh rs s (FCast to cont)
 (* ↑R : x <- shift self; k   (x names the provider in k) *)
 | T_ShiftP Γ sh rs s x from k fm tm A :
-    prov_name sh rs from -> whd s (TUp fm tm A) -> binder x ->
-    typed Δ (delete (ident x) Γ) (Some (ident x)) (rs ∖ {[ident x]}) A k ->
+    prov_name sh rs from -> whd s (TUp fm tm A) -> pbinder x ->
+    typed Δ (delete (ident x) Γ) (Some (ident x)) (rs ∖ ({[ident x]} ∖ {[""]})) A k ->
     typed Δ Γ sh rs s (FShift x from k)
 (* ↓L : x <- shift from; k *)
 | T_ShiftC Γ sh rs s x from k T fm tm A :
@@ -212,8 +220,8 @@ Inductive typed (Δ : gmap cid sty) : gmap string sty -> option string -> gset s
 with typed_brs_p (Δ : gmap cid sty) : gmap string sty -> gset string -> brs -> branches -> Prop :=
 | TBP_nil Γ rs bs : typed_brs_p Δ Γ rs bs BrNil
 | TBP_cons Γ rs bs l pay k r A :
-    find_br l bs = Some A -> binder pay ->
-    typed Δ (delete (ident pay) Γ) (Some (ident pay)) (rs ∖ {[ident pay]}) A k ->
+    find_br l bs = Some A -> pbinder pay ->
+    typed Δ (delete (ident pay) Γ) (Some (ident pay)) (rs ∖ ({[ident pay]} ∖ {[""]})) A k ->
     typed_brs_p Δ Γ rs bs r ->
     typed_brs_p Δ Γ rs bs (BrCons l pay k r)
 (* branches of a case on a client *)
